@@ -248,7 +248,20 @@ fn run_probe(case: &Case, p: &Prepared, probe: &Probe, ctx: &mut Ctx) -> Option<
                 // resolution may legitimately refuse; what it hands out must be the reader schema's value
                 Ok(Err(_)) => None,
                 Ok(Ok(vs)) => {
-                    if vs.len() != 2 || !vs.iter().all(|v| avro_eq(v, &p.expected)) {
+                    // which branch of a reader union a resolved value lands in is a matter of schema
+                    // resolution (two branches can take the same value), not of this property: compare
+                    // the values with their union wrappers removed
+                    fn unwrapped(v: &Value) -> Value {
+                        match v {
+                            Value::Union(_, x) => unwrapped(x),
+                            Value::Record(fs) => Value::Record(fs.iter().map(|(n, x)| (n.clone(), unwrapped(x))).collect()),
+                            Value::Array(xs) => Value::Array(xs.iter().map(unwrapped).collect()),
+                            Value::Map(m) => Value::Map(m.iter().map(|(k, x)| (k.clone(), unwrapped(x))).collect()),
+                            other => other.clone(),
+                        }
+                    }
+                    let want = unwrapped(&p.expected);
+                    if vs.len() != 2 || !vs.iter().all(|v| avro_eq(&unwrapped(v), &want)) {
                         return Some(Failure::new(
                             "nonconforming-value",
                             "C06 nonconforming-value node=annotated-fixed decoder=container+reader_schema".to_string(),
